@@ -46,6 +46,18 @@ def famA_bigindex(rng, tier):
     return out
 
 
+def famA_deep(rng, tier):
+    """branches with 9..14 steps (step numbers 8 and beyond), all kinds"""
+    out = []
+    for kind in gen.KINDS:
+        for _ in range(2 if tier == 'quick' else 8):
+            n = rng.randint(1, 3)
+            prof = tuple(rng.randint(9, 14) if b == 0 else rng.randint(1, 10) for b in range(n))
+            p = gen.profile_prog(kind, prof, rng, handler=rng.random() < 0.4, lets=[b for b in range(n) if rng.random() < 0.3], extra_ops=True)
+            out.append(_reg(p, 'deep%s' % (prof,)))
+    return out
+
+
 def famA_profile_async(rng, tier):
     return famA_profile(rng, tier, kinds=['100', '101', '110', '111'])
 
@@ -57,7 +69,9 @@ def famA_profile_spawn(rng, tier):
 def _operands(op, rng, i):
     n = gen.OPS[op][1]
     shapes = ['f%d' % i, '|x| x + %d' % i, '{ let k = %d; move |x| x + k }' % i, 'g::<u8, Vec<_>>(%d)' % i, '|x| -> u8 { x }', 'obj.m%d' % i,
-              'm!(a |> b, %d)' % i, '(|x| (x > %d) | (x < 2))' % i]
+              'm!(a |> b, %d)' % i, '(|x| (x > %d) | (x < 2))' % i,
+              # block-LIKE expressions that are not blocks (only `{..}` / labelled blocks are hoisted)
+              'if c%d { f } else { g }' % i, 'match k%d { _ => f }' % i, 'unsafe { f%d }' % i, "'l%d: { f }" % i, 'async { f%d }' % i, 'loop { break f%d }' % i]
     if op in ('Dot', 'Dot2'):
         return ['m%d()' % i]
     if op == 'Collect':
@@ -168,7 +182,7 @@ def handler_legal(kind, text):
     return (hk[0] in ('map', 'and_then')) == is_try
 
 
-A_FAMILIES = {'opts': famA_opts, 'handler': famA_handler, 'ops': famA_ops, 'profile': famA_profile, 'bigindex': famA_bigindex, 'profile_async': famA_profile_async,
+A_FAMILIES = {'deep': famA_deep, 'opts': famA_opts, 'handler': famA_handler, 'ops': famA_ops, 'profile': famA_profile, 'bigindex': famA_bigindex, 'profile_async': famA_profile_async,
               'profile_spawn': famA_profile_spawn}
 
 
@@ -329,9 +343,9 @@ def famB_opts(rng, tier, kinds=('000', '010')):
     return progs
 
 
-def famB_alive(rng, tier, kinds=('001', '011')):
+def famB_alive(rng, tier, kinds=('001', '011'), iflike_rate=0.0):
     """thread kinds: every active branch of a multi-branch step waits inside its first callback until ALL of them are there"""
-    progs = famB_profile(rng, tier, kinds=kinds, fail_rate=0.0, handler_rate=0.2, lets_rate=0.2, nmax=3, dmax=3, reps=1, meet=True)
+    progs = famB_profile(rng, tier, kinds=kinds, fail_rate=0.0, handler_rate=0.2, lets_rate=0.2, nmax=3, dmax=3, reps=1, meet=True, iflike_rate=iflike_rate)
     for i, p in enumerate(progs):
         if i % 4 == 1:
             p.unnamed = True            # evaluated on an unnamed thread: branch threads must be called join_<i>
@@ -751,6 +765,16 @@ def run_property(pid, P, rng, tier, seed, escalate=False, only_B=False):
                     distinct.add((r['kind'], r['text']))
             if r['status'].startswith('diff'):
                 rep['A_diffs'].append(r)
+            g0 = (r['impl'].get('gen') or {})
+            if 'ok' in g0 and g0.get('expr_ok') is False and P.get('expr_oracle'):
+                rep['witnesses'].append({'macro': gen.KIND_NAME[r['kind']], 'dsl': r['text'],
+                                         'why': 'the expansion is not a syntactically valid Rust expression (syn::parse2::<Expr> rejects it): ' + ' '.join(g0['ok'][:60])})
+            if 'ok' in g0 and P.get('fcp_oracle') and 'futures_crate_path(' in r['text'] and 'futures_crate_path(::futures)' not in r['text']:
+                flat = ' ' + ' '.join(g0['ok']) + ' '
+                if ' : : futures : : ' in flat:
+                    rep['witnesses'].append({'macro': gen.KIND_NAME[r['kind']], 'dsl': r['text'],
+                                             'why': 'a futures item of the expansion comes from ::futures although futures_crate_path(p) names another path: ..'
+                                                    + flat[max(0, flat.index(' : : futures : : ') - 60):flat.index(' : : futures : : ') + 60]})
             if r['family'] == 'handler' and P.get('handler_oracle'):
                 legal = handler_legal(r['kind'], r['text'])
                 g = (r['impl'].get('gen') or {})
@@ -864,7 +888,7 @@ def run_property(pid, P, rng, tier, seed, escalate=False, only_B=False):
             rep['witnesses'].append(f)
     if P.get('nest'):
         import nest
-        r = nest.run(tier, which=('opts' if P['nest'] == 'opts' else 'nest'))
+        r = nest.run(tier, which=(P['nest'] if P['nest'] in ('opts', 'asyncpanic') else 'nest'))
         rep['B_cases'] += r['cases']
         rep['b4_distinct'] = rep.get('b4_distinct', 0) + r['cases']
         rep['families']['B:nest'] = dict(r['dist'], failures=len(r['failures']), rejected=len(r['rejected']))
